@@ -381,6 +381,25 @@ def rule_disjunction(run, F, cfg):
             good = good and ops == [pv] and sizes == {2}
         else:
             good = False
+    # between collection and construction nothing else handles the collected patterns: the variable is initialised once,
+    # filled by push / extend, asked for its size and moved into the fused part -- it is not handed to a function that
+    # could select among the patterns (a "drop the patterns covered by a shorter one" step is right for substring
+    # patterns and wrong as soon as the group is anchored with `|`)
+    if pv:
+        ALLOWED = r"^std::vec::Vec::(push|extend_from_slice|len|is_empty|with_capacity|new|remove|swap_remove|pop|reserve|shrink_to_fit)$|" \
+                  r"Extend<.*>>::extend$|^std::vec::Vec::extend$|ops::Index<.*>>::index$|ops::Deref(Mut)?>::deref(_mut)?$|Clone>::clone$"
+        handed = []
+        for b, t in fus.calls():
+            if any(fus.vexpr_operand(a) == pv for a in t["args"]):
+                cal = strip_generics(t["callee"])
+                if not re.search(ALLOWED, cal):
+                    handed.append((cal.split("::")[-1], fus.loc(b)))
+        pl = [l for l, nme in fus.varnames.items() if "$" + nme == pv]
+        inits = [d for l in pl for d in fus.defs().get(l, [])]
+        run.ob("C05.4.disjunction", "collected-patterns-untouched", not handed and len(inits) <= 1,
+               f"the collected patterns ({pv}) are only filled, measured and moved into the fused part; they are not passed through "
+               f"another function or re-assigned on the way (handed to: {handed[:2]}; assignments: {len(inits)})",
+               site=handed[0][1] if handed else fus.loc(0), config=cfg)
     run.ob("C05.4.disjunction", "all-alternatives-kept", good and sorted(p[0] for p in parts) == ["AnyOf", "Empty", "Empty", "Simple"],
            "fusion builds Empty only if a member is Empty or no pattern was collected, Simple(p[0]) only if exactly "
            "one pattern was collected, and AnyOf(all collected patterns) otherwise", site=fus.loc(0), config=cfg,
